@@ -1,9 +1,595 @@
-//! Stream `hnsw` (stub: filled in by the owner of this stream).
+//! Stream `hnsw` — `HnswIndex` search and `brute_force_knn` (C18).
+//!
+//! Stateless lines.  Every line that needs an index carries a *recipe* from which the real index is
+//! rebuilt (`HnswIndex::with_seed` + the insert / re-insert / remove sequence):
+//!
+//!   recipe  = s<seed>;d<dim>;<metric>;m<m>;c<ef_construction>;<op>|<op>|…      (`_` = no ops)
+//!   op      = i<id>:<f32 hex>.<f32 hex>…   insert (or re-insert) a vector
+//!           | r<id>                        remove
+//!   vector  = <f32 hex>.<f32 hex>…         (8 hex digits per coordinate, the bit pattern)
+//!   graph   = <entry|N>;<max level>;<id>=<level 0 list>/<level 1 list>/…;…      (`_` = empty list)
+//!             — `HnswIndex::verif_dump()` (hook under `--cfg grafeodb_grafeo_verif`)
+//!   dists   = <id>:<f32 hex>,…             distance of every dumped node to the query, exactly as
+//!             the index computes it (`vector_distance`: cosine = 1 − dot of the normalised vectors)
+//!
+//!   hnsw search      <recipe> <query> <k> <ef> <graph> <dists>   → `id:dist,…` of `search_with_ef` (`-` = empty)
+//!   hnsw search.ties <same>     some distances are equal: a binary heap's choice among equals is not
+//!                               modelled, so only the verdict on the real result is printed (`sound`, or the
+//!                               first failing clause: more-than-k, duplicate-id, id-not-in-index,
+//!                               wrong-distance, not-sorted)
+//!   hnsw search.nan  <same>     some distance is NaN (overflowing coordinates): verdict only
+//!   hnsw removed     <recipe> <query> <k> <ef> <id>              → `absent` / `returned-removed`
+//!   hnsw live        <recipe>                                    → `<len>:<sorted ids>` (len(), verif_dump, contains, get)
+//!   hnsw batch       <recipe> <k> <query>|<query>|…              → `equal` when batch_search = the single searches
+//!                                                                  (also batch_search_with_ef / search_with_ef at ef = k)
+//!   hnsw bf          <metric> <k> <query> <id>:<vector>;…  <dists> → `id:dist,…` of `brute_force_knn`
+//!   hnsw bf.nan      <same>     some distance is NaN (≤ 20 vectors, where `sort_by` is an insertion sort)
+//!
+//! The only nondeterministic step of the real index is `remove(entry point)`, which takes
+//! `nodes.keys().next()` of a std `HashMap` (random per map) as the new entry point.  A `search*` line
+//! therefore rebuilds until the dump equals the carried dump (the generator allows one such removal per
+//! case, so a handful of attempts suffice); `rebuild-mismatch` is printed if that never happens.
 #![allow(unused)]
 use crate::util::*;
+use grafeo_common::types::NodeId;
+use grafeo_core::index::vector::{DistanceMetric, HnswConfig, HnswIndex, brute_force_knn, compute_distance, dot_product, normalize};
+use std::cell::RefCell;
+use std::collections::{BTreeMap, BTreeSet};
 
-pub fn generate(_seed: u64, _cases: usize, _out: &mut Vec<String>) {}
+// ------------------------------------------------------------------------------------ text forms
 
-pub fn run(_args: &[&str]) -> String {
-    "bad-op".into()
+fn metric_name(m: DistanceMetric) -> &'static str {
+    match m {
+        DistanceMetric::Cosine => "cosine",
+        DistanceMetric::Euclidean => "euclidean",
+        DistanceMetric::DotProduct => "dot",
+        DistanceMetric::Manhattan => "manhattan",
+    }
+}
+
+fn parse_metric(s: &str) -> Option<DistanceMetric> {
+    Some(match s {
+        "cosine" => DistanceMetric::Cosine,
+        "euclidean" => DistanceMetric::Euclidean,
+        "dot" => DistanceMetric::DotProduct,
+        "manhattan" => DistanceMetric::Manhattan,
+        _ => return None,
+    })
+}
+
+fn show_vec(v: &[f32]) -> String {
+    v.iter().map(|x| format!("{:08x}", x.to_bits())).collect::<Vec<_>>().join(".")
+}
+
+fn parse_vec(s: &str) -> Option<Vec<f32>> {
+    s.split('.').map(|t| u32::from_str_radix(t, 16).ok().map(f32::from_bits)).collect()
+}
+
+#[derive(Clone)]
+enum Op {
+    Ins(u64, Vec<f32>),
+    Rem(u64),
+}
+
+#[derive(Clone)]
+struct Recipe {
+    seed: u64,
+    dim: usize,
+    metric: DistanceMetric,
+    m: usize,
+    efc: usize,
+    ops: Vec<Op>,
+}
+
+fn show_recipe(r: &Recipe, upto: usize) -> String {
+    let ops: Vec<String> = r.ops[..upto]
+        .iter()
+        .map(|o| match o {
+            Op::Ins(id, v) => format!("i{}:{}", id, show_vec(v)),
+            Op::Rem(id) => format!("r{}", id),
+        })
+        .collect();
+    format!(
+        "s{};d{};{};m{};c{};{}",
+        r.seed,
+        r.dim,
+        metric_name(r.metric),
+        r.m,
+        r.efc,
+        if ops.is_empty() { "_".to_string() } else { ops.join("|") }
+    )
+}
+
+fn parse_recipe(s: &str) -> Option<Recipe> {
+    let p: Vec<&str> = s.split(';').collect();
+    if p.len() != 6 {
+        return None;
+    }
+    let seed = p[0].strip_prefix('s')?.parse().ok()?;
+    let dim = p[1].strip_prefix('d')?.parse().ok()?;
+    let metric = parse_metric(p[2])?;
+    let m = p[3].strip_prefix('m')?.parse().ok()?;
+    let efc = p[4].strip_prefix('c')?.parse().ok()?;
+    let mut ops = Vec::new();
+    if p[5] != "_" {
+        for t in p[5].split('|') {
+            if let Some(rest) = t.strip_prefix('i') {
+                let (id, v) = rest.split_once(':')?;
+                ops.push(Op::Ins(id.parse().ok()?, parse_vec(v)?));
+            } else if let Some(rest) = t.strip_prefix('r') {
+                ops.push(Op::Rem(rest.parse().ok()?));
+            } else {
+                return None;
+            }
+        }
+    }
+    Some(Recipe { seed, dim, metric, m, efc, ops })
+}
+
+fn new_index(r: &Recipe) -> HnswIndex {
+    let cfg = HnswConfig::new(r.dim, r.metric).with_m(r.m).with_ef_construction(r.efc);
+    HnswIndex::with_seed(cfg, r.seed)
+}
+
+fn apply(ix: &HnswIndex, op: &Op) {
+    match op {
+        Op::Ins(id, v) => ix.insert(NodeId::new(*id), v),
+        Op::Rem(id) => {
+            ix.remove(NodeId::new(*id));
+        }
+    }
+}
+
+fn build(r: &Recipe) -> HnswIndex {
+    let ix = new_index(r);
+    for op in &r.ops {
+        apply(&ix, op);
+    }
+    ix
+}
+
+fn show_graph(ix: &HnswIndex) -> String {
+    let (entry, max_level, nodes) = ix.verif_dump();
+    let mut parts = vec![entry.map_or("N".to_string(), |e| e.0.to_string()), max_level.to_string()];
+    for (id, levels) in &nodes {
+        let ls: Vec<String> = levels
+            .iter()
+            .map(|l| if l.is_empty() { "_".to_string() } else { l.iter().map(|n| n.0.to_string()).collect::<Vec<_>>().join(",") })
+            .collect();
+        parts.push(format!("{}={}", id.0, ls.join("/")));
+    }
+    parts.join(";")
+}
+
+/// the query as the index uses it, and the distance exactly as `HnswIndex::vector_distance` computes it
+fn prep_query(metric: DistanceMetric, q: &[f32]) -> Vec<f32> {
+    let mut q = q.to_vec();
+    if metric == DistanceMetric::Cosine {
+        normalize(&mut q);
+    }
+    q
+}
+
+fn index_distance(metric: DistanceMetric, q: &[f32], stored: &[f32]) -> f32 {
+    if metric == DistanceMetric::Cosine { 1.0 - dot_product(q, stored) } else { compute_distance(q, stored, metric) }
+}
+
+fn node_dists(ix: &HnswIndex, metric: DistanceMetric, query: &[f32]) -> Vec<(u64, u32)> {
+    let q = prep_query(metric, query);
+    let (_, _, nodes) = ix.verif_dump();
+    nodes.iter().map(|(id, _)| (id.0, index_distance(metric, &q, &ix.get(*id).unwrap()).to_bits())).collect()
+}
+
+fn show_dists(ds: &[(u64, u32)]) -> String {
+    if ds.is_empty() {
+        return "-".into();
+    }
+    ds.iter().map(|(i, b)| format!("{}:{:08x}", i, b)).collect::<Vec<_>>().join(",")
+}
+
+fn show_result(r: &[(NodeId, f32)]) -> String {
+    show_dists(&r.iter().map(|(i, d)| (i.0, d.to_bits())).collect::<Vec<_>>())
+}
+
+fn is_nan(bits: u32) -> bool {
+    f32::from_bits(bits).is_nan()
+}
+
+/// order key of a non-NaN f32: naturals ordered like the floats, −0 = +0 (NaN: above everything)
+fn ord_key(bits: u32) -> u64 {
+    if is_nan(bits) {
+        u64::MAX
+    } else if bits < 0x8000_0000 {
+        0x8000_0000u64 + bits as u64
+    } else {
+        0x8000_0000u64 - (bits as u64 - 0x8000_0000u64)
+    }
+}
+
+/// the specification of a search result, evaluated on the implementation's answer
+fn verdict(ds: &[(u64, u32)], k: usize, res: &[(NodeId, f32)]) -> String {
+    let table: BTreeMap<u64, u32> = ds.iter().copied().collect();
+    if res.len() > k {
+        return "more-than-k".into();
+    }
+    let ids: BTreeSet<u64> = res.iter().map(|(i, _)| i.0).collect();
+    if ids.len() != res.len() {
+        return "duplicate-id".into();
+    }
+    if res.iter().any(|(i, _)| !table.contains_key(&i.0)) {
+        return "id-not-in-index".into();
+    }
+    if res.iter().any(|(i, d)| table[&i.0] != d.to_bits()) {
+        return "wrong-distance".into();
+    }
+    if res.windows(2).any(|w| ord_key(w[0].1.to_bits()) > ord_key(w[1].1.to_bits())) {
+        return "not-sorted".into();
+    }
+    "sound".into()
+}
+
+// ------------------------------------------------------------------------------------ generator
+
+fn coord(r: &mut Rng, style: u64) -> f32 {
+    match style {
+        0 => r.below(7) as f32 - 3.0,                      // small integers: duplicates, zero vectors, ties
+        1 => (r.below(65) as f32 - 32.0) / 4.0,            // quarters
+        2 => (r.below(200_001) as f32 - 100_000.0) / 977.0, // "random"
+        3 => (r.below(7) as f32 - 3.0) * 1.0e19,           // squares overflow f32
+        _ => {
+            // small integers, now and then a NaN coordinate (a broken embedding)
+            if r.chance(1, 12) { f32::NAN } else { r.below(7) as f32 - 3.0 }
+        }
+    }
+}
+
+fn gen_vec(r: &mut Rng, dim: usize, style: u64) -> Vec<f32> {
+    (0..dim).map(|_| coord(r, style)).collect()
+}
+
+struct Recall {
+    lines: u64,
+    wanted: u64,
+    found: u64,
+    /// index states searched with k > n and ef > n / those that returned fewer than n nodes / of these, built without any remove
+    full: u64,
+    full_short: u64,
+    full_short_no_remove: u64,
+}
+
+fn emit_searches(out: &mut Vec<String>, r: &mut Rng, rec: &Recipe, upto: usize, ix: &HnswIndex, style: u64, recall: &mut Recall, counts: &mut BTreeMap<&'static str, u64>) {
+    let rs = show_recipe(rec, upto);
+    let graph = show_graph(ix);
+    let (_, _, nodes) = ix.verif_dump();
+    let n = nodes.len();
+    let nq = r.range(2, 4);
+    let mut queries: Vec<Vec<f32>> = Vec::new();
+    for _ in 0..nq {
+        let q = match r.below(6) {
+            0 if n > 0 => {
+                // exactly a stored vector (for cosine: the vector that was offered, not the normalised one)
+                let ins: Vec<&Vec<f32>> = rec.ops[..upto].iter().filter_map(|o| if let Op::Ins(_, v) = o { Some(v) } else { None }).collect();
+                (*r.pick(&ins)).clone()
+            }
+            1 => vec![0.0; rec.dim],
+            _ => {
+                let st = if r.chance(1, 4) { 2 } else { style };
+                gen_vec(r, rec.dim, st)
+            }
+        };
+        queries.push(q);
+    }
+    for q in &queries {
+        let ds = node_dists(ix, rec.metric, q);
+        let any_nan = ds.iter().any(|(_, b)| is_nan(*b));
+        let keys: BTreeSet<u64> = ds.iter().map(|(_, b)| ord_key(*b)).collect();
+        let kind = if any_nan {
+            "search.nan"
+        } else if keys.len() != ds.len() {
+            "search.ties"
+        } else {
+            "search"
+        };
+        let combos = r.range(2, 4);
+        for _ in 0..combos {
+            let k = *r.pick(&[0usize, 1, 1, 2, 2, 5, n + 3, n.max(1), n.saturating_sub(1)]);
+            let ef = *r.pick(&[0usize, 1, k, k, n + 5, 2, 3]);
+            out.push(format!("hnsw {} {} {} {} {} {} {}", kind, rs, show_vec(q), k, ef, graph, show_dists(&ds)));
+            *counts.entry(kind).or_insert(0) += 1;
+        }
+        // recall information (not an op): exact k-NN by sorting the same distances vs a wide beam
+        if !any_nan && n > 0 {
+            let k = 5.min(n);
+            let got = ix.search_with_ef(q, k, 10 * n);
+            let mut sorted: Vec<(u64, u32)> = ds.clone();
+            sorted.sort_by_key(|(_, b)| ord_key(*b));
+            let kth = ord_key(sorted[k - 1].1);
+            recall.lines += 1;
+            recall.wanted += k as u64;
+            recall.found += got.iter().filter(|(_, d)| ord_key(d.to_bits()) <= kth).count() as u64;
+        }
+    }
+    // information (not an op): does an exhaustive search (k > n, ef > n) still find every live node?
+    if n > 0 {
+        recall.full += 1;
+        if ix.search_with_ef(&queries[0], n + 3, n + 5).len() < n {
+            recall.full_short += 1;
+            if !rec.ops[..upto].iter().any(|o| matches!(o, Op::Rem(_))) {
+                recall.full_short_no_remove += 1;
+            }
+        }
+    }
+    out.push(format!("hnsw live {}", rs));
+    if r.chance(1, 2) {
+        let k = *r.pick(&[0usize, 1, 3, n + 2]);
+        out.push(format!("hnsw batch {} {} {}", rs, k, queries.iter().map(|q| show_vec(q)).collect::<Vec<_>>().join("|")));
+    }
+    // ids removed and not put back: a search must never return them
+    let mut gone: BTreeSet<u64> = BTreeSet::new();
+    for o in &rec.ops[..upto] {
+        match o {
+            Op::Ins(id, _) => {
+                gone.remove(id);
+            }
+            Op::Rem(id) => {
+                gone.insert(*id);
+            }
+        }
+    }
+    for id in gone.iter().take(2) {
+        let q = r.pick(&queries).clone();
+        out.push(format!("hnsw removed {} {} {} {} {}", rs, show_vec(&q), n + 3, n + 5, id));
+    }
+    // brute force over the vectors that were offered (the un-normalised ones), same query
+    if r.chance(2, 3) {
+        let mut live: BTreeMap<u64, Vec<f32>> = BTreeMap::new();
+        for o in &rec.ops[..upto] {
+            match o {
+                Op::Ins(id, v) => {
+                    live.insert(*id, v.clone());
+                }
+                Op::Rem(id) => {
+                    live.remove(id);
+                }
+            }
+        }
+        let q = r.pick(&queries).clone();
+        let ds: Vec<(u64, u32)> = live.iter().map(|(id, v)| (*id, compute_distance(&q, v, rec.metric).to_bits())).collect();
+        let any_nan = ds.iter().any(|(_, b)| is_nan(*b));
+        if !any_nan || live.len() <= 20 {
+            let k = *r.pick(&[0usize, 1, 2, 5, live.len(), live.len() + 2]);
+            let vs = if live.is_empty() { "-".to_string() } else { live.iter().map(|(id, v)| format!("{}:{}", id, show_vec(v))).collect::<Vec<_>>().join(";") };
+            out.push(format!("hnsw {} {} {} {} {} {}", if any_nan { "bf.nan" } else { "bf" }, metric_name(rec.metric), k, show_vec(&q), vs, show_dists(&ds)));
+        }
+    }
+}
+
+pub fn generate(seed: u64, cases: usize, out: &mut Vec<String>) {
+    let mut r = Rng::new(seed ^ 0x686e7377);
+    let metrics = [DistanceMetric::Cosine, DistanceMetric::Euclidean, DistanceMetric::DotProduct, DistanceMetric::Manhattan];
+    let mut recall = Recall { lines: 0, wanted: 0, found: 0, full: 0, full_short: 0, full_short_no_remove: 0 };
+    let mut counts: BTreeMap<&'static str, u64> = BTreeMap::new();
+    for c in 0..cases {
+        out.push(format!("# case {} seed {}", c, seed));
+        let dim = *r.pick(&[1usize, 3, 7, 17]);
+        let metric = *r.pick(&metrics);
+        let m = *r.pick(&[2usize, 2, 3, 4, 16]);
+        let efc = *r.pick(&[1usize, 2, 4, 8, 128]);
+        let style = match r.below(26) {
+            0 => 3,
+            25 => 4,
+            1..=6 => 0,
+            7..=12 => 1,
+            _ => 2,
+        };
+        let mut rec = Recipe { seed: r.below(1000), dim, metric, m, efc, ops: Vec::new() };
+        let mut ix = new_index(&rec);
+        let n_ops = if r.chance(1, 5) { r.range(1, 6) } else { r.range(7, 25) } as usize;
+        // a small id pool makes most inserts re-inserts; a large one makes most of them new nodes
+        let pool = if r.chance(1, 4) { r.range(1, 8) } else { n_ops as u64 + r.range(0, 6) };
+        let mut live: BTreeSet<u64> = BTreeSet::new();
+        let dup_vectors = r.chance(1, 4); // repeated vectors make every query of the case a `search.ties` line
+        let mut next_id = pool; // ids above the pool are always new
+        let mut nondet_left = 1; // removals of the entry point whose successor is HashMap-order dependent
+        let mut inserts = 0;
+        let mut checkpoints = 0;
+        while inserts < n_ops {
+            let entry = ix.verif_dump().0.map(|e| e.0);
+            let roll = r.below(20);
+            if roll < 3 && !live.is_empty() {
+                // remove: the entry point one time in three
+                let ids: Vec<u64> = live.iter().copied().collect();
+                let mut id = *r.pick(&ids);
+                if r.chance(1, 3) {
+                    id = entry.unwrap_or(id);
+                }
+                let mut nondet = false;
+                if Some(id) == entry && live.len() > 2 {
+                    if nondet_left == 0 {
+                        continue;
+                    }
+                    nondet_left -= 1;
+                    nondet = true;
+                }
+                let op = Op::Rem(id);
+                apply(&ix, &op);
+                rec.ops.push(op);
+                live.remove(&id);
+                if nondet {
+                    // `remove` took `nodes.keys().next()` (std HashMap order, random per map) as the new entry
+                    // point.  So that a seed always generates the same lines, the successor is drawn from the
+                    // seed and the index is rebuilt until the real code happens to pick it.
+                    let ids: Vec<u64> = live.iter().copied().collect();
+                    let target = *r.pick(&ids);
+                    for _ in 0..4000 {
+                        if ix.verif_dump().0.map(|e| e.0) == Some(target) {
+                            break;
+                        }
+                        ix = build(&rec);
+                    }
+                }
+            } else if roll < 4 {
+                // remove an id that is not there
+                let op = Op::Rem(1000 + r.below(3));
+                apply(&ix, &op);
+                rec.ops.push(op);
+            } else {
+                // insert; ids come from a small pool, so existing ids are re-inserted now and then;
+                // one time in six the vector repeats an earlier one
+                let id = if r.chance(1, 6) && !live.is_empty() {
+                    *r.pick(&live.iter().copied().collect::<Vec<_>>())
+                } else if r.chance(2, 3) {
+                    {
+                    next_id += 1;
+                    next_id
+                }
+                } else {
+                    r.range(1, pool)
+                };
+                let prev: Vec<Vec<f32>> = rec.ops.iter().filter_map(|o| if let Op::Ins(_, v) = o { Some(v.clone()) } else { None }).collect();
+                let v = if dup_vectors && r.chance(1, 6) && !prev.is_empty() { r.pick(&prev).clone() } else { gen_vec(&mut r, dim, style) };
+                let op = Op::Ins(id, v);
+                apply(&ix, &op);
+                rec.ops.push(op);
+                live.insert(id);
+                inserts += 1;
+            }
+            if r.chance(1, 12) && checkpoints < 2 {
+                checkpoints += 1;
+                let upto = rec.ops.len();
+                emit_searches(out, &mut r, &rec, upto, &ix, style, &mut recall, &mut counts);
+            }
+        }
+        // sometimes empty the index again, or remove down to one node
+        if r.chance(1, 15) {
+            let ids: Vec<u64> = live.iter().copied().collect();
+            let keep = r.below(2) as usize;
+            for id in ids.iter().skip(keep) {
+                let entry = ix.verif_dump().0.map(|e| e.0);
+                if Some(*id) == entry && live.len() > 2 {
+                    continue;
+                }
+                let op = Op::Rem(*id);
+                apply(&ix, &op);
+                rec.ops.push(op);
+                live.remove(id);
+            }
+        }
+        let upto = rec.ops.len();
+        emit_searches(out, &mut r, &rec, upto, &ix, style, &mut recall, &mut counts);
+    }
+    out.push(format!(
+        "# info hnsw: search lines by kind {:?}; recall@5 with ef = 10n over {} queries: {}/{}; index states where a search with k > n, ef > n returned fewer than the n live nodes: {} of {} ({} of them built without any remove, i.e. by re-inserting an existing id)",
+        counts, recall.lines, recall.found, recall.wanted, recall.full_short, recall.full, recall.full_short_no_remove
+    ));
+}
+
+// ------------------------------------------------------------------------------------ runner
+
+thread_local! {
+    static CACHE: RefCell<Option<(String, HnswIndex)>> = const { RefCell::new(None) };
+}
+
+/// the real index of a recipe whose dump equals `graph` (rebuilt until the HashMap-order dependent
+/// choice of `remove(entry point)` comes out as it did when the line was generated)
+fn with_index<T>(recipe: &str, graph: &str, f: impl FnOnce(&Recipe, &HnswIndex) -> T) -> Result<T, String> {
+    let rec = parse_recipe(recipe).ok_or("bad-op")?;
+    let key = format!("{} {}", recipe, graph);
+    CACHE.with(|c| {
+        let mut c = c.borrow_mut();
+        let hit = matches!(&*c, Some((k, _)) if *k == key);
+        if !hit {
+            let mut found = None;
+            for _ in 0..4000 {
+                let ix = build(&rec);
+                if show_graph(&ix) == graph {
+                    found = Some(ix);
+                    break;
+                }
+            }
+            match found {
+                Some(ix) => *c = Some((key, ix)),
+                None => return Err("rebuild-mismatch".to_string()),
+            }
+        }
+        Ok(f(&rec, &c.as_ref().unwrap().1))
+    })
+}
+
+pub fn run(args: &[&str]) -> String {
+    let a = args.to_vec();
+    guarded(move || match a.as_slice() {
+        [kind @ ("search" | "search.ties" | "search.nan"), recipe, query, k, ef, graph, dists] => {
+            let (Some(q), Ok(k), Ok(ef)) = (parse_vec(query), k.parse::<usize>(), ef.parse::<usize>()) else {
+                return "bad-op".into();
+            };
+            let r = with_index(recipe, graph, |rec, ix| {
+                let ds = node_dists(ix, rec.metric, &q);
+                if show_dists(&ds) != *dists {
+                    return "dist-mismatch".to_string();
+                }
+                let res = ix.search_with_ef(&q, k, ef);
+                if *kind == "search" { show_result(&res) } else { verdict(&ds, k, &res) }
+            });
+            r.unwrap_or_else(|e| e)
+        }
+        ["removed", recipe, query, k, ef, id] => {
+            let (Some(rec), Some(q), Ok(k), Ok(ef), Ok(id)) = (parse_recipe(recipe), parse_vec(query), k.parse::<usize>(), ef.parse::<usize>(), id.parse::<u64>()) else {
+                return "bad-op".into();
+            };
+            let ix = build(&rec);
+            let res = ix.search_with_ef(&q, k, ef);
+            let res2 = ix.search(&q, k);
+            if res.iter().chain(res2.iter()).any(|(i, _)| i.0 == id) || ix.contains(NodeId::new(id)) || ix.get(NodeId::new(id)).is_some() {
+                "returned-removed".into()
+            } else {
+                "absent".into()
+            }
+        }
+        ["live", recipe] => {
+            let Some(rec) = parse_recipe(recipe) else { return "bad-op".into() };
+            let ix = build(&rec);
+            let (entry, _, nodes) = ix.verif_dump();
+            let ids: Vec<u64> = nodes.iter().map(|(i, _)| i.0).collect();
+            if ids.iter().any(|i| !ix.contains(NodeId::new(*i)) || ix.get(NodeId::new(*i)).is_none()) {
+                return "dump-disagrees-with-get".into();
+            }
+            if entry.is_some() != !ids.is_empty() || entry.is_some_and(|e| !ids.contains(&e.0)) {
+                return format!("entry-point-not-live:{:?}", entry.map(|e| e.0));
+            }
+            format!("{}:{}", ix.len(), list_arg(&ids))
+        }
+        ["batch", recipe, k, queries] => {
+            let (Some(rec), Ok(k)) = (parse_recipe(recipe), k.parse::<usize>()) else { return "bad-op".into() };
+            let Some(qs) = queries.split('|').map(parse_vec).collect::<Option<Vec<Vec<f32>>>>() else { return "bad-op".into() };
+            let ix = build(&rec);
+            let singles: Vec<String> = qs.iter().map(|q| show_result(&ix.search(q, k))).collect();
+            let batch: Vec<String> = ix.batch_search(&qs, k).iter().map(|r| show_result(r)).collect();
+            let slices: Vec<&[f32]> = qs.iter().map(|q| q.as_slice()).collect();
+            let batch2: Vec<String> = ix.batch_search_slices(&slices, k).iter().map(|r| show_result(r)).collect();
+            let singles_ef: Vec<String> = qs.iter().map(|q| show_result(&ix.search_with_ef(q, k, k))).collect();
+            let batch_ef: Vec<String> = ix.batch_search_with_ef(&qs, k, k).iter().map(|r| show_result(r)).collect();
+            if singles == batch && singles == batch2 && singles_ef == batch_ef { "equal".into() } else { "differs".into() }
+        }
+        ["bf" | "bf.nan", metric, k, query, vectors, dists] => {
+            let (Some(metric), Ok(k), Some(q)) = (parse_metric(metric), k.parse::<usize>(), parse_vec(query)) else {
+                return "bad-op".into();
+            };
+            let mut vs: Vec<(NodeId, Vec<f32>)> = Vec::new();
+            if *vectors != "-" {
+                for t in vectors.split(';') {
+                    let Some((id, v)) = t.split_once(':') else { return "bad-op".into() };
+                    let (Ok(id), Some(v)) = (id.parse::<u64>(), parse_vec(v)) else { return "bad-op".into() };
+                    vs.push((NodeId::new(id), v));
+                }
+            }
+            let ds: Vec<(u64, u32)> = vs.iter().map(|(id, v)| (id.0, compute_distance(&q, v, metric).to_bits())).collect();
+            if show_dists(&ds) != *dists {
+                return "dist-mismatch".into();
+            }
+            let res = brute_force_knn(vs.iter().map(|(id, v)| (*id, v.as_slice())), &q, k, metric);
+            show_result(&res)
+        }
+        _ => "bad-op".into(),
+    })
 }
